@@ -126,6 +126,18 @@ CHECKS = {
             {'name': 'Harness_C14_indexed', 'pkg': 'saml', 'replay': 'direct', 'must_reach': ['accepted', 'rejected'], 'validate_labels': ['accepted']},
         ],
     },
+    'C06': {
+        'level_text': 'z3 decides, for all request, registry, endpoint, session and clock values at once, that the assertion and the emitted Response element/form are scoped to the selected registered endpoint, the registered SP, the request ID and the issuance moment, carry only session strings, and that both elements carry an enveloped signature made by the IdP key (private key or crypto.Signer).',
+        'level_note': 'real DefaultAssertionMaker.MakeAssertion, MakeAssertionEl, MakeResponse, PostBinding, signingContext, the Element() builders and the etree code executed from SSA. Request, registry entry and selected endpoint are independent symbolic values. goxmldsig SignEnveloped is a contract stub (a Signature child recording signer and signed element); that the signature bytes verify is cryptography (outside), replayed natively with real keys. Attribute harness: <=1 (quick) / <=2 (thorough) requested attributes from a fixed name list, <=1 group and custom attribute, and in the quick tier five of the optional user fields empty.',
+        'harnesses': [
+            {'name': 'Harness_C06_assertion', 'pkg': 'saml', 'replay': 'direct', 'must_reach': ['made']},
+            {'name': 'Harness_C06_attributes', 'pkg': 'saml', 'replay': 'direct', 'must_reach': ['made', 'attribute-value'], 'opts': {'time_res': 1000000},
+             'quick': {'K': 1, 'params': {'session.few': 1, 'requested.max': 1, 'rand.mayfail': 0}}, 'thorough': {'K': 1, 'params': {'session.few': 0, 'requested.max': 2, 'rand.mayfail': 0}},
+             'budget_s': {'quick': 600, 'thorough': 6000}},
+            {'name': 'Harness_C06_response', 'pkg': 'saml', 'replay': 'direct', 'must_reach': ['emitted', 'refused'], 'validate_labels': ['emitted'],
+             'quick': {'params': {'rand.mayfail': 0}, 'no_sign_err': True}, 'thorough': {'params': {'rand.mayfail': 1}}},
+        ],
+    },
     'C08': {
         'level_text': 'z3/path enumeration decides, for every layout of <=2 (quick) / <=3 (thorough) key descriptors x <=2 certificates (Use encryption/signing/omitted/other, arbitrary/empty/real certificate texts), that the encryption-certificate selector reports "no key" exactly when none is advertised, never panics and never turns a bad certificate into "no key"; replayed natively with real certificates.',
         'level_note': 'real getSPEncryptionCert executed from SSA; base64 decode and x509.ParseCertificate are contract stubs (fail or opaque certificate; exact on the two real test certificates); at most one descriptor with use="encryption" (several are ambiguous: outside). The MakeAssertionEl / xmlenc halves are covered where registered below.',
